@@ -328,7 +328,7 @@ Definition start_retry (q : seqdef) (timeout : N) : rstate :=
 
 Inductive cerr :=
 | EActiveMax | EActiveInUse | EUnknownToken | ENoCard | ENeedsPin | EUnexpectedPacket
-| EAborted (c : N) | EIncomplete | EUnknownCode (c : N) | EUnhandled (c : N) | EUnknownCardType | EParseTid.
+| EAborted (c : N) | EIncomplete | EUnknownCode (c : N) | EUnhandled (c : N) | EUnknownCardType | EParseTid | ETidTooLong.
 
 Inductive cres (A : Type) := ROk (a : A) | RErr (e : cerr).
 Arguments ROk {A} a.
@@ -414,6 +414,8 @@ Definition set_terminal_id (cfg : config) (w : world) : cres unit * world :=
       match digits_value (c_terminal_id cfg) with
       | None => (RErr EParseTid, w1)
       | Some n =>
+          (* since the fix of F14: an id of more than eight digits does not fit BMP 29 and is refused (it panicked in Fixed<4>) *)
+          if 99999999 <? n then (RErr ETidTooLong, w1) else
           let cmd := mk_cmd "zvt::packets::SetTerminalId" [VInt (c_password cfg)] [(41, VSome (VInt n))] in
           let q := seq_of "zvt::sequences::SetTerminalId" cmd in
           let ixc := variant_ix "zvt::sequences::SetTerminalIdResponse" "CompletionData" in
@@ -669,8 +671,18 @@ Fixpoint run_ops (cfg : config) (st : cstate) (ops : list op) (w : world) (acc :
               run_ops cfg st' r w' ((res, t0, w_now w' - t0) :: acc)
   end.
 
+(* TcpStream::new (since the fix of F14): a configuration whose password, currency or amount does not fit its fixed-width field
+   on the wire is refused — before, every call that had to send it panicked in Fixed<N>::serialize *)
+Definition cfg_ok (cfg : config) : bool :=
+  (c_password cfg <? 10 ^ 6) && (c_currency cfg <? 10 ^ 4) && (c_amount cfg <? 10 ^ 12).
+
 Definition run_history (cfg : config) (ops : list op) (scripts : list cscript)
   : N * list (opres * N * N) * cstate * world :=
   let '(cfg', st, w) := new_client cfg scripts in
   let '(rs, st', w') := run_ops cfg' st ops w [] in
   (w_now w, rs, st', match w_cur w' with Some id => drop_conn w' id | None => w' end).
+
+(* Feig::new(config) and the calls made on the client it returns: None = Feig::new returned an error, no client exists *)
+Definition feig_history (cfg : config) (ops : list op) (scripts : list cscript)
+  : option (N * list (opres * N * N) * cstate * world) :=
+  if cfg_ok cfg then Some (run_history cfg ops scripts) else None.
